@@ -160,6 +160,30 @@ func (P *Program) sweep() (findings []sweepFinding, mapRanges []string, nfuncs i
 	return
 }
 
+// sweepObligations turns the sweep into obligations of C06: one per map-range
+// site (the function must carry a determinacy contract) and one per kind of
+// hidden-state source (none may be reachable).
+func (P *Program) sweepObligations() []*Obligation {
+	findings, ranges, n := P.sweep()
+	var obs []*Obligation
+	bySite := map[string]string{}
+	other := map[string][]string{}
+	for _, f := range findings {
+		if f.Kind == "map-range-without-determinacy-contract" {
+			bySite[strings.SplitN(f.What, ":", 2)[0]] = f.What
+		} else {
+			other[f.Kind] = append(other[f.Kind], f.Func+": "+f.What)
+		}
+	}
+	for _, site := range ranges {
+		obs = append(obs, &Obligation{Name: "sweep/map-range-has-determinacy-contract:" + site, Class: "det", Props: []string{"C06"}, Func: site, static: true, staticFail: bySite[site]})
+	}
+	for _, kind := range []string{"store-to-package-variable", "store-into-package-slice", "select", "goroutine", "pointer-to-integer", "clock", "random"} {
+		obs = append(obs, &Obligation{Name: fmt.Sprintf("sweep/no-%s", kind), Class: "det", Props: []string{"C06", "C14"}, Func: fmt.Sprintf("%d reachable functions", n), static: true, staticFail: strings.Join(other[kind], "; ")})
+	}
+	return obs
+}
+
 func cmdSweep(args []string) int {
 	fs := flag.NewFlagSet("sweep", flag.ExitOnError)
 	repo := fs.String("repo", "/repo", "repository")
